@@ -242,6 +242,19 @@ class Interp:
         return self.lookup(node.id, fr)
 
     def e_JoinedStr(self, node, fr):
+        # f'{x:.Ng}' / f'{x:.Nf}' / f'{x:.Ne}' of a number: the decimal text of x rounded to N significant digits (g, e) or N
+        # decimals (f).  Fewer than 17 significant digits do not round-trip a double: the text denotes a value r with
+        # |r - x| <= half a unit of the last kept digit, otherwise unconstrained (so code that relies on r == x is refuted).
+        if len(node.values) == 1 and isinstance(node.values[0], ast.FormattedValue) and node.values[0].format_spec is not None:
+            fv = node.values[0]
+            spec = fv.format_spec
+            if isinstance(spec, ast.JoinedStr) and len(spec.values) == 1 and isinstance(spec.values[0], ast.Constant):
+                import re as _re
+                m = _re.fullmatch(r'\.(\d+)([gfe])', str(spec.values[0].value))
+                if m:
+                    v = self.eval(fv.value, fr)
+                    if is_conc_num(v) or isinstance(v, Sym) and v.k in ('int', 'real'):
+                        return self.lib.formatted_number(self, v, int(m.group(1)), m.group(2))
         parts = []
         for p in node.values:
             if isinstance(p, ast.Constant):
